@@ -656,6 +656,10 @@ pub struct Config {
     /// daemons do — madvise-style discards are refused on locked pages
     #[serde(default)]
     pub mlockall: bool,
+    /// C19 only: the process's standard error is a pipe whose reader has gone (a daemon whose
+    /// log collector died): every write to it fails with EPIPE
+    #[serde(default)]
+    pub stderr_broken: bool,
 }
 
 pub const ARRAY_LENS: [usize; 10] = [0, 1, 16, 32, 64, 4095, 4096, 4097, 8192, 8193];
@@ -796,6 +800,34 @@ pub struct MemWorld {
     refusals_seen: u32,
     ok: bool,
     last_hist: String,
+    /// the process's real standard error while `stderr_broken` has replaced fd 2
+    saved_stderr: Option<i32>,
+}
+
+/// Replace fd 2 by the write end of a pipe whose read end is closed; returns the saved fd.
+fn break_stderr() -> Option<i32> {
+    unsafe {
+        let saved = libc::dup(2);
+        if saved < 0 {
+            return None;
+        }
+        let mut fds = [0 as libc::c_int; 2];
+        if libc::pipe(fds.as_mut_ptr()) != 0 {
+            libc::close(saved);
+            return None;
+        }
+        libc::close(fds[0]);
+        libc::dup2(fds[1], 2);
+        libc::close(fds[1]);
+        Some(saved)
+    }
+}
+
+fn restore_stderr(saved: i32) {
+    unsafe {
+        libc::dup2(saved, 2);
+        libc::close(saved);
+    }
 }
 
 fn len_class(n: usize, page: usize) -> &'static str {
@@ -1233,7 +1265,10 @@ impl World for MemWorld {
         let walk_len = 8 + rng.usize_below(23);
         let big = prop != "C19" && plan == PlanCfg::None && rng.chance(1, 10);
         let mlockall = prop == "C15" && plan == PlanCfg::None && !big && rng.chance(1, 12);
-        Config { prop: prop.to_string(), rseed, plan, walk_len, base_walk: base, bias: prop.to_string(), big, mlockall }
+        // every fourth base walk of C19 (not under the deny-everything plan, where the drop path
+        // itself reports munlock failures on stderr)
+        let stderr_broken = prop == "C19" && base % 4 == 1 && !matches!(plan, PlanCfg::RefuseAllFrom { .. });
+        Config { prop: prop.to_string(), rseed, plan, walk_len, base_walk: base, bias: prop.to_string(), big, mlockall, stderr_broken }
     }
 
     fn new(cfg: &Config) -> Self {
@@ -1257,7 +1292,7 @@ impl World for MemWorld {
                 libc::mlockall(libc::MCL_CURRENT | libc::MCL_FUTURE);
             }
         }
-        MemWorld { cfg: cfg.clone(), slots: (0..SLOTS).map(|_| None).collect(), allocs: vec![None, None], page, scratch: Vec::with_capacity(1 << 16), vmas: Vec::with_capacity(256), n_events: 0, finished: false, lock_requests_seen: 0, refusals_seen: 0, ok: true, last_hist: String::new() }
+        MemWorld { cfg: cfg.clone(), slots: (0..SLOTS).map(|_| None).collect(), allocs: vec![None, None], page, scratch: Vec::with_capacity(1 << 16), vmas: Vec::with_capacity(256), n_events: 0, finished: false, lock_requests_seen: 0, refusals_seen: 0, ok: true, last_hist: String::new(), saved_stderr: if cfg.stderr_broken && std::env::var("VERIF_VERBOSE").is_err() { break_stderr() } else { None } }
     }
 
     fn next_event(&mut self, rng: &mut Rng) -> Option<Event> {
@@ -1398,7 +1433,7 @@ impl World for MemWorld {
             }
             4 => Some(Event::Write { slot: *rng.pick(&live), fill: rng.next_u64() % 1000 }),
             5 => Some(Event::Read { slot: *rng.pick(&live) }),
-            6 => Some(Event::Drop { slot: *rng.pick(&live), unwinding: rng.chance(1, 4), relfault: self.cfg.prop == "C15" && self.cfg.plan == PlanCfg::None && rng.chance(1, 5) }),
+            6 => Some(Event::Drop { slot: *rng.pick(&live), unwinding: rng.chance(1, 4), relfault: (self.cfg.prop == "C15" || self.cfg.prop == "C14") && self.cfg.plan == PlanCfg::None && rng.chance(1, 5) }),
             7 => {
                 let aslot = self.allocs.iter().position(|a| a.is_none()).unwrap();
                 Some(Event::Alloc { aslot, size: if rng.chance(1, 2) { *rng.pick(&[1usize, 8, 4095, 4096, 4097, 8192, 8193]) } else { 1 + rng.usize_below(3 * 4096) } })
@@ -1834,12 +1869,16 @@ impl World for MemWorld {
         shim::smaps(&mut scratch, &mut vmas);
         let mut bad_rights = 0;
         let mut bad_lock = 0;
+        let mut bad_fork = 0;
         for b in shim::all_blocks() {
             let mut a = b.base;
             while a < b.base + b.size {
                 if let Some(v) = shim::vma_of(&vmas, a) {
                     if !(v.r && v.w) {
                         bad_rights += 1;
+                    }
+                    if v.dontfork && !b.live {
+                        bad_fork += 1;
                     }
                     if v.locked {
                         bad_lock += 1;
@@ -1871,11 +1910,18 @@ impl World for MemWorld {
         if bad_lock > 0 {
             out.violate("C14", "c14.residual_lock", site(&[("history", &hist_class)]), format!("after the last handle was dropped {} pages of released allocations are still VM_LOCKED", bad_lock));
         }
+        if bad_fork > 0 {
+            // memory that went back to the system allocator but is absent in every forked child
+            out.violate("C14", "c14.residual_rights", site(&[("history", &hist_class), ("what", "dontfork")]), format!("after the last handle was dropped {} pages of released allocations are still marked MADV_DONTFORK (a forked child cannot access memory the allocator hands out again)", bad_fork));
+        }
         if self.cfg.mlockall {
             unsafe {
                 libc::munlockall();
             }
             out.probe("env.mlockall_run");
+        }
+        if self.saved_stderr.is_some() {
+            out.fault("stderr_is_a_broken_pipe");
         }
         // make the process clean for the next run whatever happened
         for b in shim::all_blocks() {
@@ -1968,5 +2014,8 @@ impl Drop for MemWorld {
             }
         }
         dryoc::rng::verif::set_source(None);
+        if let Some(fd) = self.saved_stderr.take() {
+            restore_stderr(fd);
+        }
     }
 }
